@@ -1,11 +1,11 @@
 (* db/schema.go: newSchema / newCreateTable / addCreateIndex / toIndexColumns /
    addIndex / setPK / sameIndexColumns / isRowid and db/affinity.go, over the
    statements the translated parser (Model/SqlParse.v) produces.  Identifier
-   case folding is ASCII (Go's is Unicode-aware: the check keeps to ASCII
-   names).  strconv.ParseFloat is not modelled: a DEFAULT whose text is a real
-   literal under a numeric affinity is reported as DUnknown. *)
+   case folding is ASCII, as in the code.  A DEFAULT whose text is a real literal
+   under a numeric affinity goes through the model of strconv.ParseFloat
+   (Model/Tokenizer.v) and Go's float conversions (Model/Float.v). *)
 From Coq Require Import ZArith List String Bool Ascii.
-From SQ Require Import Model.SqlParse.
+From SQ Require Import Model.Base Model.Text Model.Float Model.SqlParse Model.Tokenizer.
 Import ListNotations.
 Open Scope string_scope.
 Open Scope Z_scope.
@@ -104,6 +104,25 @@ Definition f_of_int (z : Z) : Z :=
          if q' =? 2 ^ 53 then (2 ^ 52, l + 1) else (q', l) in
   (if s then 2 ^ 63 else 0) + (e + 1023) * 2 ^ 52 + (m - 2 ^ 52).
 
+(* textToNumber's second half: strconv.ParseFloat (an overflow is +-Inf), then the integer test *)
+Definition real_text_value (a : aff) (s0 : string) : dflt :=
+  let t := trim s0 in
+  let '(neg, body) := match t with
+                      | String c r => if Ascii.eqb c "-"%char then (true, r) else if Ascii.eqb c "+"%char then (false, r) else (false, t)
+                      | _ => (false, t)
+                      end in
+  let mag := match parse_float (bytes_of_string body) with Some b => b | None => 2047 * 2 ^ 52 end in
+  let f := if neg then mag + 2 ^ 63 else mag in
+  if is_inf f then DReal f else
+  match f_cmp_int f (- 2 ^ 63), f_cmp_int f (2 ^ 63) with
+  | Gt, Lt =>
+    let n := f_trunc f in
+    if (match fcmp (Float.f_of_int n) f with Some Eq => true | _ => false end) && (- 2 ^ 63 <? n) && (n <? 2 ^ 63 - 1)
+    then match a with AReal => DReal (Float.f_of_int n) | _ => DInt n end
+    else DReal f
+  | _, _ => DReal f
+  end.
+
 Definition default_with_affinity (typ : string) (d : val) : dflt :=
   let a := column_affinity typ in
   match strip d with
@@ -116,7 +135,7 @@ Definition default_with_affinity (typ : string) (d : val) : dflt :=
       match text_to_number s with
       | None => DText s
       | Some (Some z) => match a with AReal => DReal (f_of_int z) | _ => DInt z end
-      | Some None => DUnknown
+      | Some None => real_text_value a s
       end
     | _ => DText s
     end
